@@ -72,15 +72,28 @@ def gen_stream(ctx, k):
     uid = 0
     parts = []           # (bytes, corrupted?)
     ncorr = 0
+    big = rng.random() < 0.3          # streams with packets up to the largest one the receiver has to take (255 payload bytes + CRC)
     for p in range(npk):
         nm = rng.randrange(1, 7)
         payload = b''
+        limit = 60
+        exact = None
+        if big and rng.random() < 0.5:
+            limit = rng.choice([255, 255, 254, 200, 128])
+            nm = 60
+            exact = limit if rng.random() < 0.6 else None
         for _ in range(nm):
             m = rand_msg(rng, uid)
             uid += 1
-            if len(payload) + len(m) > 60:
+            if len(payload) + len(m) > limit - (4 if exact else 0):
                 break
             payload += m
+        if exact is not None and 4 <= exact - len(payload) <= 128:
+            # a last message that fills the packet to exactly `exact` bytes
+            fl = exact - len(payload)
+            t_ = rng.choice([x for x in range(256) if x != STALL])
+            payload += bytes([fl - 1, 0, rng.randrange(256), t_]) + bytes(gen.rbyte(rng, 0.2) for _ in range(fl - 4))
+            uid += 1
         if not payload:
             payload = rand_msg(rng, uid)[:60]
             uid += 1
@@ -93,6 +106,34 @@ def gen_stream(ctx, k):
             parts.append((fr, None))
     # always finish with a known-good packet: corruption must not disturb later packets
     parts.append((model.frame(rand_msg(rng, 0xFFFF)), None))
+    if big:
+        # a packet of the largest size whose closing delimiter is lost: what follows (noise, or the next packet) is read as part of it. The
+        # receiver has 256 CRC-consistent bytes in its buffer at some point - and a packet that is longer and whose CRC is wrong at its end
+        for _ in range(rng.randrange(1, 4)):
+            pl = b''
+            while 255 - len(pl) > 128:
+                fl = rng.randrange(8, 100)
+                pl += bytes([fl - 1, 0, rng.randrange(256), rng.choice([x for x in range(256) if x != STALL])]) + bytes(gen.rbyte(rng, 0.1) for _ in range(fl - 4))
+            fl = 255 - len(pl)
+            pl += bytes([fl - 1, 0, rng.randrange(256), rng.choice([x for x in range(256) if x != STALL])]) + bytes(gen.rbyte(rng, 0.1) for _ in range(fl - 4))
+            fr = model.frame(pl)
+            tail = bytes(rng.choice([x for x in range(256) if x not in (0xFE, 0xFD)]) for _ in range(rng.randrange(1, 30))) + b'\xfe' if rng.random() < 0.5 else model.frame(rand_msg(rng, uid))[1:]
+            uid += 1
+            parts.insert(rng.randrange(len(parts)), (fr[:-1] + tail, 'overlong'))
+            ncorr += 1
+    # delimiters between packets: one shared delimiter is as legal as two; a LOST shared delimiter merges two packets into one whose CRC is
+    # (almost always) wrong - both are gone, nothing of either may be processed, later packets are untouched
+    for i in range(len(parts) - 2):
+        fr, kind = parts[i]
+        nx, kind2 = parts[i + 1]
+        if kind is None and kind2 is None and fr[-1:] == b'\xfe' and nx[:1] == b'\xfe':
+            r_ = rng.random()
+            if r_ < 0.2:
+                parts[i] = (fr[:-1], None)                       # shared delimiter
+            elif r_ < (0.45 if big else 0.25):
+                parts[i] = (fr[:-1], 'merged')
+                parts[i + 1] = (nx[1:], 'merged')
+                ncorr += 1
     stream = b''.join(p[0] for p in parts)
     style = rng.choice(['all', 'bytewise', 'random', 'after_escape'])
     return stream, style, parts, ncorr
@@ -104,6 +145,8 @@ def reference_messages(stream):
     for payload, s, e in model.lenient_deframe(stream):
         if payload is None:
             continue
+        if len(payload) > 255:
+            return None           # a CRC-valid packet longer than any BiDiB packet (1 of 256 merged ones): outside the statement, C12's concern
         try:
             ms = model.split_messages(payload)
             for m in ms:
